@@ -33,6 +33,9 @@ def render(i, variant):
     tgen = "<G: Send + 'static>" if ret == "generic" else ""
     at = ("#[::async_trait::async_trait(?Send)]\n" if i.get("atargs") else "#[::async_trait::async_trait]\n") if mode.endswith("-at") else ""
     items = []
+    byvalue = i.get("recv") == "value"
+    if mode in ("fn-at", "mod-at"):
+        mode = mode[:-3]
     if mode in ("fn", "mod", "fn-concrete"):
         conc = mode == "fn-concrete"
         if conc:
@@ -44,12 +47,12 @@ def render(i, variant):
             gens = ""
         f = f"async fn f{gens}({deps}{pdecl}){rdecl} {body(ret, rc)}"
         if mode in ("fn", "fn-concrete"):
-            items.append(f"#[::entrait::entrait(pub T{ns})]\n{f}\n")
+            items.append(f"#[::entrait::entrait(pub T{ns})]\n{at}{f}\n")
         else:
-            items.append(f"#[::entrait::entrait(pub T{ns})]\npub mod m {{\n    use super::*;\n    pub {f}\n    pub async fn other<D: Sync>(deps: &D) -> u8 {{ 1 }}\n}}\n")
+            items.append(f"#[::entrait::entrait(pub T{ns})]\n{at}pub mod m {{\n    use super::*;\n    pub {f}\n    pub async fn other<D: Sync>(deps: &D) -> u8 {{ 1 }}\n}}\n")
     else:
         mlt = "<'a>" if ret == "borrow-arg" else ""
-        selfp = "&self"
+        selfp = "self" if byvalue else "&self"
         msig = f"async fn f{mlt}({selfp}{pdecl}){rdecl}"
         base = mode.replace("-at", "")
         if base == "trait-self":
@@ -73,8 +76,12 @@ def render(i, variant):
     src = "use crate::*;\n" + "\n".join(items)
     recv = "crate::ConcN" if mode == "fn-concrete" else "::entrait::Impl<crate::App>"
     if variant == "base":
-        src += (f"pub fn w_output<'a>(app: &'a {recv}, s: &'a str) {{ let fut = T::f(app{pargs}); "
+        arg = "::entrait::Impl::new(crate::App)" if byvalue else "app"
+        src += (f"pub fn w_output<'a>(app: &'a {recv}, s: &'a str) {{ let fut = T::f({arg}{pargs}); "
                 f"assert_output::<{rty}, _>(&fut); let _ = ::vt::block_on(fut); }}\n")
+    elif variant == "send" and byvalue:
+        # the future owns the receiver: a caller that owns a Send receiver may require a Send future
+        src += f"pub fn w_send<'a, A: T{targ} + Sync + Send>(app: A, s: &'a str) {{ let fut = app.f({pargs.lstrip(', ')}); is_send(&fut); }}\n"
     elif variant == "send":
         src += f"pub fn w_send<'a, A: T{targ} + Sync>(app: &'a A, s: &'a str) {{ let fut = app.f({pargs.lstrip(', ')}); is_send(&fut); }}\n"
     return src
